@@ -309,6 +309,9 @@ class Lexer:
             if c == ".":
                 if self.peek() == ".":  # probably a range expression delimiter
                     self.backup()
+                    if self.path_stack[-1].stop < 0:
+                        # A single word path, like `x` in `(x..3)`.
+                        self.path_stack[-1].stop = self.pos
                     return
 
                 self.ignore()
